@@ -2,14 +2,14 @@
 import ast
 
 from ..model import AnalysisError, dotted, unparse
-from ..util import U, enum_paths, walk_no_nested
+from ..util import FACTS, FACTS_I, U, enum_paths, walk_no_nested
 from ..paths import call_attr, call_name
 
 A = 'scales/asynchronous.py'
 
 
 def facts(ev):
-  return [(U(e.node).replace(' ', ''), e.info) for e in ev if e.kind == 'cond']
+  return FACTS(ev)
 
 
 def has(fs, text, truth):
